@@ -115,7 +115,7 @@ func (m *setModel) equal(o *setModel) bool {
 }
 
 func runC18(r *kit.Run) {
-	n := int64(r.Scale(20000, 1500000))
+	n := int64(r.Scale(20000, 3000000))
 	for i := int64(0); i < n && !r.Stopped(); i++ {
 		if !r.Mine(i) {
 			continue
